@@ -5,7 +5,10 @@
    GetOrAllocate / ReleaseBlocks / RestoreMapping / RestoreMappingIfAbsent calls.  An allocation op may carry the
    block somebody else chose ([Some b]): it is granted only if admissible, so the theorems cover every allocation
    policy, the current first-free one included ([None]).  [blocks_of p k] are the blocks subscriber k holds.
-   Variant [repaired] = the code with fixes/C15_*.patch applied; [defective] = the code as it is today.
+   Variant [repaired] = the code with every fixes/C15_*.patch applied.  Of those, restore validation, reverse Add
+   replace, outside-address dedup and the HA-synced rollback are in /repo (285c7b2, 7d1d0b3, 3b1c45d, 0cedd79); the
+   inside-VRF key, the cross-pool overlap check and the late-add reconciliation are open findings (see the end of this
+   file).  [defective] = the code before any of them.
    [wf_range r]: port-range start <= end <= 65535 (not checked by cgnat.Config.Validate; listed as an assumption). *)
 From OV Require Import Common.Base C15.Model C15.Proofs.
 Local Open Scope N_scope.
@@ -140,7 +143,7 @@ Theorem C15_disjoint_across_pools :
 Proof. exact mdisjoint. Qed.
 Print Assumptions C15_disjoint_across_pools.
 
-(* ---- what the unchanged code violates (variant [defective] = the code as it is today) ---- *)
+(* ---- what the code violated before the fixes now in /repo (variant [defective] or a single missing repair) ---- *)
 
 (* RestoreMapping accepts an unaligned block overlapping subscriber 1's block; releasing the restored subscriber
    clears subscriber 1's bit; the allocator then hands subscriber 1's block to subscriber 4. *)
